@@ -34,6 +34,16 @@ pub fn check_one(rep: &mut Report, mode: RoundSeconds, prayer: Prayer, hour: f64
             return;
         }
     };
+    // None mode keeps the truncated second of the (wrapped) instant: independent of the code's own arithmetic
+    {
+        let inst = (hour + off / 60.).rem_euclid(24.) * 3600.;
+        let d = (t0 as f64 - inst.floor()).abs();
+        let d = d.min(86400. - d);
+        if d > 1. {
+            rep.fail(json!({"key": "c11-none-truncation", "prayer": format!("{:?}", prayer), "hour": hour, "offset_min": off,
+                "unrounded": format!("{:02}:{:02}:{:02}", t0 / 3600, t0 / 60 % 60, t0 % 60), "instant_seconds_of_day": inst}));
+        }
+    }
     let five = FIVE.contains(&prayer);
     let (idx0, s0) = (t0 / 60, t0 % 60);
     let up = match mode {
@@ -58,6 +68,8 @@ pub fn seconds(a: &Args) -> Report {
     let mut rng = Rng::new(a.seed);
     let modes = [RoundSeconds::NormalRounding, RoundSeconds::SpecialRounding, RoundSeconds::AggressiveRounding];
     let fr = [0.0, 0.25, 0.5, 0.999];
+    // the recorded known finding (known_findings.txt) is exercised on every run, whatever the seed
+    check_one(&mut rep, RoundSeconds::NormalRounding, Prayer::Fajr, 8.033333333333333, 0.);
     let stride = if a.thorough { 1 } else { 3 };
     let mut t = (a.seed % stride as u64) as u32;
     while t < 86400 {
@@ -71,8 +83,14 @@ pub fn seconds(a: &Args) -> Report {
                 2 => 1500.,
                 _ => (rng.below(3001) as f64) - 1500.,
             };
-            // keep the unrounded instant at second t by compensating the offset in the hour
-            check_one(&mut rep, mode, prayer, hour - off / 60., off);
+            // two thirds: keep the unrounded instant at second t by compensating the offset in the hour (the
+            // intermediate sum is then formed from a negative or > 24 h operand); one third: let the offset really
+            // push the intermediate hour below 0 or past 24 h
+            if t % 3 == 0 {
+                check_one(&mut rep, mode, prayer, hour, off);
+            } else {
+                check_one(&mut rep, mode, prayer, hour - off / 60., off);
+            }
             rep.distinct_nontrivial += 1;
         }
         t += stride;
